@@ -630,23 +630,26 @@ func main() {
 	}
 	os.MkdirAll(*out, 0o755)
 	files := map[string]string{
-		"GenConsts.v":       genConsts(),
-		"GenTables.v":       genTables(),
-		"GenRyu.v":          genRyu(),
-		"GenKernels.v":      genKernels(),
-		"GenFuncs.v":        genFuncs(),
-		"GenSorter.v":       genSorter(),
-		"GenGrouper.v":      genGrouper(),
-		"GenFilterClause.v": genFilterClause(),
-		"GenStrSer.v":       genStrSer(),
-		"GenRyuText.v":      genRyuText(),
-		"GenFastCsv.v":      genFastCsv(),
-		"GenQFrameOps.v":    genQFrameOps(),
-		"GenExprTree.v":     genExprTree(),
-		"GenIoCsv.v":        genIoCsv(),
-		"GenSqlIO.v":        genSqlIO(),
-		"GenAggr.v":         genAggr(),
-		"GenEnumFac.v":      genEnumFac(),
+		"GenConsts.v":         genConsts(),
+		"GenTables.v":         genTables(),
+		"GenRyu.v":            genRyu(),
+		"GenKernels.v":        genKernels(),
+		"GenFuncs.v":          genFuncs(),
+		"GenSorter.v":         genSorter(),
+		"GenGrouper.v":        genGrouper(),
+		"GenFilterClause.v":   genFilterClause(),
+		"GenStrSer.v":         genStrSer(),
+		"GenRyuText.v":        genRyuText(),
+		"GenFastCsv.v":        genFastCsv(),
+		"GenQFrameOps.v":      genQFrameOps(),
+		"GenExprTree.v":       genExprTree(),
+		"GenIoCsv.v":          genIoCsv(),
+		"GenSqlIO.v":          genSqlIO(),
+		"GenAggr.v":           genAggr(),
+		"GenEnumFac.v":        genEnumFac(),
+		"GenFilterDispatch.v": genFilterDispatch(),
+		"GenColApply.v":       genColApply(),
+		"GenIoJson.v":         genIoJson(),
 	}
 	// Files are written even when problems were found so that the directed search can still build: every
 	// definition that could not be derived from the current source is taken from the golden copy (the output
